@@ -43,6 +43,9 @@ func runC04(c *Ctx) {
 	treeListingsCoverWholeTree(c, "R7")
 	lsTreePathIsRemainder(c, "R7")
 	smudgeFailureLeavesPointer(c, "R9")
+	smudgeReadsLocalObjectOnlyAtPointerSize(c, "R6")
+	pathListElementsTrimmed(c, "R3")
+	checkoutScansTheResolvedCommit(c, "R7")
 	run := p.Fn("commands", "(*singleCheckout).Run")
 	if run == nil {
 		c.Missing("R1", "(*singleCheckout).Run", "not found")
@@ -476,6 +479,7 @@ func okPhiFalseInErrorsLoop(p *Prog, fn *ssa.Function, v ssa.Value) bool {
 }
 
 var c04Canaries = []Canary{
+	{Name: "r6-ls-tree-split-at-every-tab", ExpectKey: "C04.R7#ls-tree:path-is-everything-after-first-tab", Edits: []Edit{{File: "git/ls_tree_scanner.go", Find: "func (s *LsTreeScanner) next() (*TreeBlob, bool) {\n\thasNext := s.s.Scan()\n\tline := s.s.Text()\n\tparts := strings.SplitN(line, \"\\t\", 2)\n\tif len(parts) < 2 {\n\t\treturn nil, hasNext\n\t}\n\n\tattrs := strings.SplitN(parts[0], \" \", 4)\n\tif len(attrs) < 4 {\n\t\treturn nil, hasNext\n\t}\n\n\tmode, err := strconv.ParseInt(strings.TrimSpace(attrs[0]), 8, 32)\n\tif err != nil {\n\t\treturn nil, hasNext\n\t}\n", Repl: "func (s *LsTreeScanner) next() (*TreeBlob, bool) {\n\thasNext := s.s.Scan()\n\tline := s.s.Text()\n\t// <mode> SP <type> SP <object> SP <padded size> TAB <file>\n\tparts := strings.Split(line, \"\\t\")\n\tif len(parts) < 2 {\n\t\treturn nil, hasNext\n\t}\n\n\tattrs := strings.Fields(parts[0])\n\tif len(attrs) < 4 {\n\t\treturn nil, hasNext\n\t}\n\n\tmode, err := strconv.ParseInt(attrs[0], 8, 32)\n\tif err != nil {\n\t\treturn nil, hasNext\n\t}\n"}, {File: "git/ls_tree_scanner.go", Find: "\t\treturn nil, hasNext\n\t}\n\n\tsz, err := strconv.ParseInt(strings.TrimSpace(attrs[3]), 10, 64)\n\tif err != nil {\n\t\treturn nil, hasNext\n\t}\n", Repl: "\t\treturn nil, hasNext\n\t}\n\n\tsz, err := strconv.ParseInt(attrs[3], 10, 64)\n\tif err != nil {\n\t\treturn nil, hasNext\n\t}\n"}}},
 	{Name: "r5-delayed-pointers-reset", ExpectKey: "C04.R8", Edits: []Edit{{File: "commands/command_filter_process.go", Find: "\t\t\t\tq = nil\n", Repl: "\t\t\t\tq = nil\n\t\t\t\tptrs = make(map[string]*lfs.Pointer)\n"}}},
 	{Name: "r4-no-pathspec-separator", ExpectKey: "C04.R10", Edits: []Edit{{File: "git/git.go", Find: "\targs = append(args, \"--\")\n\targs = append(args, paths...)", Repl: "\targs = append(args, paths...)"}}},
 	{Name: "r4-declined-leaves-empty-file", ExpectKey: "C04.R9", Edits: []Edit{{File: "lfs/gitfilter_smudge.go", Find: "\t\t\tfile.Seek(0, io.SeekStart)\n\t\t\tptr.Encode(file)\n\t\t\treturn err", Repl: "\t\t\treturn err"}}},
